@@ -15,6 +15,14 @@
 //verif:replace@C18c (*os.File).Write = Write
 //verif:replace@C18c (*os.File).Read = Read
 //verif:replace@C18c (*os.File).Close = Close
+//verif:replace@C18d os.OpenFile = OpenFile
+//verif:replace@C18d os.Open = Open
+//verif:replace@C18d os.Rename = Rename
+//verif:replace@C18d os.Remove = Remove
+//verif:replace@C18d (*os.File).WriteString = WriteString
+//verif:replace@C18d (*os.File).Write = Write
+//verif:replace@C18d (*os.File).Read = Read
+//verif:replace@C18d (*os.File).Close = Close
 
 // Package memfs: a small in-memory file system standing in for the os calls
 // of the code under test (harness support, overlay only).
